@@ -39,6 +39,7 @@ func checkC11(c *core.Ctx) {
 }
 
 func c11BoundsCheck(c *core.Ctx) {
+	c11Inference(c)
 	f := c.MustFunc(rC11All, "analysis", "BoundsAnalyzer.BoundsCheck")
 	if f == nil {
 		return
